@@ -12,6 +12,8 @@ mod p_c11;
 mod p_c12;
 mod p_c15;
 mod p_c16;
+mod p_c18;
+mod p_c06;
 mod p_c19;
 mod delivery;
 mod spec;
@@ -92,6 +94,8 @@ fn main() {
                 "C11" => p_c11::generate(seed, tier, &mut sink),
                 "C15" => p_c15::generate(seed, tier, &mut sink),
                 "C16" => p_c16::generate(seed, tier, &mut sink),
+                "C18" => p_c18::generate(seed, tier, &mut sink),
+                "C06" => p_c06::generate(seed, tier, &mut sink),
                 "C19" => p_c19::generate(seed, tier, &mut sink),
                 _ => {
                     eprintln!("unknown property {}", prop);
